@@ -97,6 +97,10 @@ struct Attacker {
     undone: bool,
     /// inodes the attacker created inside the root
     created: Rc<RefCell<Vec<(u64, u64)>>>,
+    /// inodes of the tree
+    inside: std::collections::HashSet<(u64, u64)>,
+    /// link bodies the library read from objects that were never inside the root
+    reads_out: Rc<RefCell<Vec<String>>>,
 }
 
 impl Attacker {
@@ -183,6 +187,23 @@ impl Interposer for Attacker {
         }
         Action::Proceed
     }
+
+    fn post(&mut self, _idx: usize, call: &Call, resp: &Resp) {
+        // `readlinkat(fd, "")` on an object of a real filesystem: whose body is being read?
+        if call.kind == "readlinkat" && call.strs.first().map(|s| s.is_empty()).unwrap_or(false) && matches!(resp, Resp::Bytes(_)) {
+            if let Some(&fd) = call.fds.first() {
+                let mut sfs: libc::statfs = unsafe { std::mem::zeroed() };
+                if unsafe { libc::fstatfs(fd, &mut sfs) } == 0 && sfs.f_type as i64 != 0x9fa0 {
+                    let mut st: libc::stat = unsafe { std::mem::zeroed() };
+                    unsafe { libc::fstat(fd, &mut st) };
+                    let key = (st.st_dev, st.st_ino);
+                    if !self.inside.contains(&key) && !self.created.borrow().contains(&key) {
+                        self.reads_out.borrow_mut().push(foreign_name(&self.top, key));
+                    }
+                }
+            }
+        }
+    }
 }
 
 fn mutations_for(rng: &mut Rng, spec: &TreeSpec, op: &Op) -> Vec<Mutation> {
@@ -245,7 +266,7 @@ fn run_one(
     id: &str,
     suite: &str,
     extra: &str,
-    mk: &mut dyn FnMut(&Path) -> (Option<Box<dyn Interposer>>, Rc<RefCell<Vec<(u64, u64)>>>),
+    mk: &mut dyn FnMut(&Path, &Labels) -> (Option<Box<dyn Interposer>>, Rc<RefCell<Vec<(u64, u64)>>>, Rc<RefCell<Vec<String>>>),
     check_outside: bool,
 ) -> (String, usize, bool) {
     let (top, rootdir) = setup_case_dir(ctx, "case", cc.spec);
@@ -263,7 +284,7 @@ fn run_one(
     s.push('\n');
     s.push_str(extra);
     let outside_before = if check_outside { Some(outside_snapshot(&top)) } else { None };
-    let (ip, created) = mk(&top);
+    let (ip, created, reads_out) = mk(&top, &labels);
     let before = ops::fd_table();
     let (outcome, log) = ops::run_recorded(&root, cc.op, ip);
     let after = ops::fd_table();
@@ -298,6 +319,11 @@ fn run_one(
             s.push_str(&format!("ident {}\n", if known { "in".to_string() } else { format!("OUT body {}", fmt::hex(b)) }));
         }
         _ => s.push_str("ident none\n"),
+    }
+    if reads_out.borrow().is_empty() {
+        s.push_str("linkbody in\n");
+    } else {
+        s.push_str(&format!("linkbody OUT {}\n", reads_out.borrow().join(",")));
     }
     s.push_str(&fdt);
     s.push('\n');
@@ -396,8 +422,8 @@ fn success_postcondition(root: &Root, op: &Op, outcome: &Outcome) -> Option<Stri
     })
 }
 
-fn no_interposer(_top: &Path) -> (Option<Box<dyn Interposer>>, Rc<RefCell<Vec<(u64, u64)>>>) {
-    (None, Rc::new(RefCell::new(Vec::new())))
+fn no_interposer(_top: &Path, _l: &Labels) -> (Option<Box<dyn Interposer>>, Rc<RefCell<Vec<(u64, u64)>>>, Rc<RefCell<Vec<String>>>) {
+    (None, Rc::new(RefCell::new(Vec::new())), Rc::new(RefCell::new(Vec::new())))
 }
 
 /// hand-made scenarios: the classic "move the directory out while the walk is inside, then `..`"
@@ -426,7 +452,13 @@ fn classic_cases() -> Vec<(TreeSpec, Op)> {
         (deep.clone(), Op::Resolve { path: b"abs/d/../../../up/f".to_vec(), nofollow: false }),
         (deep.clone(), Op::OpenSubpath { path: b"a/b/c/../../../f".to_vec(), flags: libc::O_RDONLY }),
         (deep.clone(), Op::Readlink { path: b"a/b/c/../../up".to_vec() }),
-        (deep, Op::Resolve { path: b"a/b/c/d/../../../../l".to_vec(), nofollow: true }),
+        (deep.clone(), Op::Resolve { path: b"a/b/c/d/../../../../l".to_vec(), nofollow: true }),
+        // names that exist only *outside* the root (next to where a moved-out directory lands):
+        // the walk must not read outside/link or open outside/dir/x
+        (deep.clone(), Op::Resolve { path: b"a/b/c/../link".to_vec(), nofollow: false }),
+        (deep.clone(), Op::Resolve { path: b"a/b/c/d/../../link/../f".to_vec(), nofollow: false }),
+        (deep.clone(), Op::Readlink { path: b"a/b/c/../link".to_vec() }),
+        (deep, Op::OpenSubpath { path: b"a/b/../dir/x".to_vec(), flags: libc::O_RDONLY }),
     ]
 }
 
@@ -497,8 +529,9 @@ pub fn suite_attack(ctx: &mut Ctx, seed: u64, n: usize, per_case: usize) {
                 let m = muts[mi].clone();
                 let extra = format!("attack at={k} flip={} {}\n", flip as u8, m.line());
                 let id = format!("{i}{b}-m{mi}k{k}{}", if flip { "f" } else { "" });
-                let mut mk = |top: &Path| {
+                let mut mk = |top: &Path, labels: &Labels| {
                     let created = Rc::new(RefCell::new(Vec::new()));
+                    let reads_out = Rc::new(RefCell::new(Vec::new()));
                     let a = Attacker {
                         top: top.to_path_buf(),
                         at: k,
@@ -507,8 +540,10 @@ pub fn suite_attack(ctx: &mut Ctx, seed: u64, n: usize, per_case: usize) {
                         done: false,
                         undone: false,
                         created: created.clone(),
+                        inside: labels.0.keys().cloned().collect(),
+                        reads_out: reads_out.clone(),
                     };
-                    (Some(Box::new(a) as Box<dyn Interposer>), created)
+                    (Some(Box::new(a) as Box<dyn Interposer>), created, reads_out)
                 };
                 let (text, _, _) = run_one(ctx, &cc, &id, "attack", &extra, &mut mk, false);
                 ctx.out.write_all(text.as_bytes()).unwrap();
@@ -609,9 +644,10 @@ pub fn suite_fault(ctx: &mut Ctx, seed: u64, n: usize, per_case: usize) {
                     Fault::AlwaysEagain => "fault always_eagain\n".to_string(),
                 };
                 let id = format!("{i}{b}-f{fi}");
-                let mut mk = |_top: &Path| {
+                let mut mk = |_top: &Path, _l: &Labels| {
                     (
                         Some(Box::new(Faulter(f.clone())) as Box<dyn Interposer>),
+                        Rc::new(RefCell::new(Vec::new())),
                         Rc::new(RefCell::new(Vec::new())),
                     )
                 };
